@@ -3,7 +3,8 @@ import json
 from common import *
 import impl, l0
 
-THMS = ["C02_set_operations_group_left", "C02_parenthesised_operand_stays_grouped", "C02_tail_wraps_whole_chain", "C02_from_sources_in_order"]
+THMS = ["C02_set_operations_group_left", "C02_parenthesised_operand_stays_grouped", "C02_tail_wraps_whole_chain", "C02_from_sources_in_order",
+        "C02_clause_keys_of_dictionary", "C02_clause_items_of_dictionary", "C02_clause_keys_of_named_result", "C02_clause_items_of_named_result"]
 HEADER = ("From Coq Require Import List ZArith String Bool.\nFrom MoSql Require Import Base.Json Model.Clause.\nImport ListNotations.\nOpen Scope string_scope. Open Scope list_scope.\n")
 JOINS = ["join", "inner join", "left join", "right join", "full join", "cross join", "left outer join", "right outer join", "full outer join"]
 SETOPS = [("union", "union"), ("union all", "union_all"), ("intersect", "intersect"), ("except", "except"), ("minus", "minus")]
@@ -240,6 +241,7 @@ def run(ctx):
     rnd = ctx.rng("c02")
     q = Q(rnd)
     checks, meta = [], []
+    raw_pool = []
     nbad = 0
     for i in range(ctx.n(1500, 20000)):
         q.n = 0
@@ -249,6 +251,8 @@ def run(ctx):
             continue
         st, got = impl.outcome(impl.M.parse, sql)
         ctx.count(1, sql)
+        if st == "ok" and i % ctx.n(4, 8) == 0:
+            raw_pool.append(sql)
         if st != "ok" or canon(got) != canon(want):
             nbad += 1
             ctx.violation("input", dict(sql=sql, returned=short(got, 1000) if st == "ok" else [st, str(got)], requires=short(want, 1000)))
@@ -320,6 +324,31 @@ def run(ctx):
     for i in bad[:5]:
         ctx.violation("input", dict(sql=meta[i], broken="correspondence Model/Clause.v (to_union) vs the implementation's set-operation folding"), no_input=True)
     ctx.sample(dict(sql=sql))
+    # ---- the last stage: the raw result that reaches utils.scrub for a sample of the generated queries, the model's scrub on it (the C02_clause_* theorems are about that model)
+    import l2
+    l2.U = impl.build_all()
+    cases, cmeta = [], []
+    for sql in raw_pool:
+        st, val, cap, x = l2.run_case("common_parser", sql, "simple", "default", None)
+        if st != "ok" or len(cap) != 1:
+            continue
+        try:
+            term = l2.dump(cap[0][0], {})
+        except l2.Outside:
+            continue
+        if len(term) > 60000:
+            continue
+        cases.append(l2.coq_case("simple", None, x, term, cap[0][1]))
+        cmeta.append(sql)
+    res, log = l2.run_model(ctx, "c02s", cases)
+    if res is None:
+        ctx.obligation("scrub correspondence evaluated", False, log[-1500:])
+        ctx.violation("obligation", dict(what="the scrub correspondence could not be evaluated by coqc", log=log[-1500:]), no_input=True)
+    else:
+        ctx.traces += len(cases)
+        ctx.obligation("correspondence: Model.Scrub.parse_result = utils.scrub on the raw results of %d generated queries (clause dictionaries and named results)" % len(cases), not res["mismatch"])
+        for i in res["mismatch"][:5]:
+            ctx.violation("input", dict(sql=cmeta[i], broken="correspondence Model/Scrub.v vs utils.scrub on a query (the C02_clause_* theorems are proved about the model)"), no_input=True)
 
 
 def replay(ctx, rep):
